@@ -40,6 +40,10 @@ type c13world struct {
 	allowNil bool
 	hasNil   bool
 	nSel     int
+	// scale modes: deep = a chain of mostly single-child non-terminals (depth 40-340), wide = the next non-terminal gets
+	// 300-1800 children
+	deep bool
+	wide bool
 }
 
 type c13interp struct {
@@ -75,10 +79,17 @@ func (i c13interpC) StaticCheck(u interface{}, n parsley.NonTerminalNode) (inter
 	if i.m.id == i.w.failAt {
 		return nil, parsley.NewErrorf(n.Pos(), "fail %d", i.m.id)
 	}
-	if i.m.id%5 == 2 {
+	if c13silent(i.m.id, u) {
 		return nil, nil // a checker may have nothing to say about the type of its node (statements, blocks)
 	}
 	return fmt.Sprintf("S%d@%v", i.m.id, u), nil
+}
+
+// c13silent: whether the checker of node id has no schema to report under user context u. It depends on the user
+// context (a symbol table in which a name is known in one pass and unknown in the next): a node that got a schema in
+// one pass must lose it in a later pass in which its checker returns nil.
+func c13silent(id int, u interface{}) bool {
+	return (id+len(fmt.Sprint(u)))%5 == 2
 }
 
 type c13interpT struct{ c13interp }
@@ -119,6 +130,9 @@ func (w *c13world) gen(d int) *c13m {
 	w.nextID++
 	m := &c13m{id: w.nextID, sel: -1}
 	k := w.r.Intn(10)
+	if (w.deep || w.wide) && d > 0 {
+		k = 3 + w.r.Intn(7)
+	}
 	if d <= 0 || k < 3 {
 		if k == 0 {
 			m.kind = 1
@@ -160,6 +174,12 @@ func (w *c13world) gen(d int) *c13m {
 		n = 10 + w.r.Intn(40) // a wide node from time to time
 		d = 1
 	}
+	if w.deep && d > 1 {
+		n = 1 + w.r.Intn(8)/7
+	}
+	if w.wide {
+		n, d, w.wide = 300+w.r.Intn(1500), 1, false
+	}
 	if n == 0 {
 		m.node = ast.NewEmptyNonTerminalNode("N", parsley.Pos(m.id), ip)
 		w.byNode[m.node] = m
@@ -167,7 +187,11 @@ func (w *c13world) gen(d int) *c13m {
 	}
 	var kids []parsley.Node
 	for i := 0; i < n; i++ {
-		c := w.gen(d - 1)
+		cd := d - 1
+		if w.deep && i > 0 && cd > 2 {
+			cd = 2 // the chain continues through the first child only
+		}
+		c := w.gen(cd)
 		m.kids = append(m.kids, c)
 		kids = append(kids, c.node)
 	}
@@ -244,7 +268,16 @@ func c13exec(j run.Job, a *run.Acc) {
 		w := &c13world{r: rand.New(rand.NewSource(caseSeed)), failAt: -1, byNode: map[parsley.Node]*c13m{}}
 		w.allowNil = caseSeed%3 == 0
 		depth := 1 + w.r.Intn(6)
+		switch caseSeed % 41 {
+		case 5:
+			w.deep, depth = true, 40+w.r.Intn(300)
+			a.Count("deep trees (40-340 levels)", 1)
+		case 6:
+			w.wide = true
+			a.Count("wide trees (a node with 300-1800 children)", 1)
+		}
 		root := w.gen(depth)
+		w.deep = false
 		var order []*c13m // post-order of the tree that Walk is expected to follow
 		listRoot := false
 		var rootNode parsley.Node = root.node
@@ -350,7 +383,7 @@ func c13exec(j run.Job, a *run.Acc) {
 				if m.id == failAt {
 					return want, true
 				}
-				if m.id%5 == 2 {
+				if c13silent(m.id, uc) {
 					delete(schema, m.id)
 				} else {
 					schema[m.id] = fmt.Sprintf("S%d@%s", m.id, uc)
@@ -387,6 +420,16 @@ func c13exec(j run.Job, a *run.Acc) {
 		}
 		verifySchemas("second")
 		a.Count("second static-check passes over an already checked tree", 1)
+		// and a THIRD pass with the first user context again: the nodes whose checkers are silent under it lose the
+		// schema the second pass gave them, the others get theirs back
+		w.log = nil
+		err3 := parsley.StaticCheck("UC", rootNode)
+		want3, _ := expectPass("UC", -1, schema)
+		a.Count("checker invocations observed", int64(len(w.log)))
+		if strings.Join(w.log, ";") != strings.Join(want3, ";") || err3 != nil {
+			a.Violate("static-check-second-pass", "static-check-second-pass", desc(map[string]any{"pass": "third", "log": w.log, "expected": want3, "error": fmt.Sprint(err3)}))
+		}
+		verifySchemas("third")
 		if failed {
 			a.Count("static checks aborted by an injected error", 1)
 		}
@@ -575,7 +618,7 @@ func init() {
 		},
 		Exec: c13exec,
 		Finish: func(tier string, a *run.Acc, cov map[string]any) string {
-			cov["rule"] = "case = a random tree built with ast.NewNonTerminalNode / NewEmptyNonTerminalNode / NewTerminalNode / EmptyNode (arity 0-4, depth <= 6, optionally an alternative list at the root), " +
+			cov["rule"] = "case = a random tree built with ast.NewNonTerminalNode / NewEmptyNonTerminalNode / NewTerminalNode / EmptyNode (arity 0-4 and now and then 10-50, depth <= 6; one tree in 41 a chain 40-340 levels deep, one in 41 with a node of 300-1800 children; optionally an alternative list at the root), " +
 				"interpreters from four capability classes (plain, +StaticChecker, +NodeTransformer, both) plus the library's own interpreter.Select; checkers that return a nil schema; transformers that return the node itself, a leaf or a fresh transformable non-terminal; instrumented callbacks log (kind, node id, what they saw). Oracle = the same traversals over the generator's mirror tree: " +
 				"Walk post-order with a stop at a random visit; StaticCheck bottom-up with children's schemas, stored schemas and an injected failure; evaluation order with identical node + user context and an injected failure; " +
 				"Transform (own transformer, else children, injected failure), directly and through parsley.Parse with EnableTransformation. non-trivial = tree with >= 3 nodes; distinct = distinct tree shape"
